@@ -9,10 +9,12 @@ import (
 	"fmt"
 	"os"
 	"path/filepath"
-	"strings"
 	"sort"
+	"strings"
 	"sync"
+	"sync/atomic"
 	"testing"
+	"time"
 
 	"pgregory.net/rapid"
 
@@ -137,6 +139,12 @@ func execC17(t *testing.T, sc *world.Scenario) (*oracle.Result, string) {
 	defer os.RemoveAll(dir)
 	if c.Kind == "config" {
 		return execC17Config(c, dir, r)
+	}
+	if c.Kind == "openconc" {
+		return execC17OpenConc(c, r)
+	}
+	if c.Kind == "churn" {
+		return execC17Churn(c, r)
 	}
 	key := aesKey(c.KeyLen, c.Seed)
 	conn, err := c17Open(c.Path, dir, key, true)
@@ -501,6 +509,180 @@ func TestC17Nonce(t *testing.T) {
 	c.Gen = func(rt *rapid.T) *world.Scenario {
 		return mkC17(c17Case{Kind: "nonce", Path: gen.Pick(rt, "path", "option", "dsn-on"), KeyLen: gen.Pick(rt, "klen", 16, 32),
 			ValLen: gen.Pick(rt, "vlen", 0, 16, 1000), Seed: uint64(rapid.IntRange(1, 1<<30).Draw(rt, "seed"))})
+	}
+	RunCheck(t, c)
+}
+
+// TestC17OpenConc: many caches are opened at the same time, each with its own directory and its
+// own way of switching encryption on (or none). Whatever the interleaving, a cache opened with
+// encryption writes no plaintext, its files open under exactly the key it was given, and a cache
+// opened without encryption is unaffected.
+func execC17OpenConc(cs c17Case, r *oracle.Result) (*oracle.Result, string) {
+	c17Dir++
+	root := filepath.Join(world.ScratchRoot(), fmt.Sprintf("c17o-%d", c17Dir))
+	defer os.RemoveAll(root)
+	n := cs.KeyLen // number of concurrent opens
+	for round := 0; round < 12; round++ {
+		type slot struct {
+			dir, key string
+			enc      bool
+			conn     driver.Conn
+			err      error
+		}
+		slots := make([]*slot, n)
+		for i := range slots {
+			d := filepath.Join(root, fmt.Sprintf("r%d-%d", round, i))
+			_ = os.MkdirAll(d, 0o755)
+			slots[i] = &slot{dir: d, enc: (uint64(i)+cs.Seed+uint64(round))%2 == 0, key: aesKey(32, cs.Seed+uint64(i*131+round))}
+		}
+		var wg sync.WaitGroup
+		start := make(chan struct{})
+		for i, sl := range slots {
+			wg.Add(1)
+			go func(i int, sl *slot) {
+				defer wg.Done()
+				<-start
+				switch {
+				case sl.enc && i%3 == 0:
+					sl.conn, sl.err = fscache.Open("app", fscache.WithBaseDir(sl.dir), fscache.WithEncryption(sl.key))
+				case sl.enc:
+					sl.conn, sl.err = store.Open("fscache://" + sl.dir + "?appname=app&encrypt=on&timeout=30s&encrypt_key=" + queryEscape(sl.key))
+				case i%3 == 1:
+					sl.conn, sl.err = fscache.Open("app", fscache.WithBaseDir(sl.dir), fscache.WithTimeout(30*time.Second), fscache.WithUpdateMTime(true))
+				default:
+					sl.conn, sl.err = store.Open("fscache://" + sl.dir + "?appname=app&connect_timeout=30s")
+				}
+			}(i, sl)
+		}
+		close(start)
+		wg.Wait()
+		value := world.ExpandValue(300, cs.Seed+uint64(round))
+		const k = "http://a.test/c17/open#0"
+		for i, sl := range slots {
+			r.Evals++
+			if sl.err != nil {
+				r.Fail("C17", "concurrent-open-failed", i, "open %d of %d concurrent ones failed: %v", i, n, sl.err)
+				return r, ""
+			}
+			if err := sl.conn.Set(k, value); err != nil {
+				r.Fail("C17", "concurrent-open-broken", i, "Set on cache %d (enc=%v) failed: %v", i, sl.enc, err)
+				return r, ""
+			}
+			files := filesUnder(sl.dir)
+			if len(files) != 1 {
+				r.Fail("C17", "concurrent-open-wrong-dir", i, "cache %d of %d opened concurrently wrote %d files under its own directory (want 1)", i, n, len(files))
+				return r, ""
+			}
+			b, _ := os.ReadFile(files[0])
+			leak := plaintextWindow(b, value) >= 0
+			switch {
+			case sl.enc && leak:
+				r.Fail("C17", "plaintext-on-disk:concurrent-open", i, "cache %d of %d opened concurrently with encryption stores plaintext", i, n)
+				return r, ""
+			case !sl.enc && !leak:
+				r.Fail("C17", "concurrent-open-option-leaked", i, "cache %d of %d opened concurrently WITHOUT encryption does not store the value as it is", i, n)
+				return r, ""
+			}
+			if sl.enc {
+				c2, err := fscache.Open("app", fscache.WithBaseDir(sl.dir), fscache.WithEncryption(sl.key))
+				if err != nil {
+					return r, err.Error()
+				}
+				if got, err := c2.Get(k); err != nil || !bytes.Equal(got, value) {
+					r.Fail("C17", "concurrent-open-wrong-key", i, "the files of cache %d of %d opened concurrently do not open under the key it was given: %v", i, n, err)
+					return r, ""
+				}
+			}
+		}
+		r.NTKeys = append(r.NTKeys, fmt.Sprintf("openconc/%d/%d/%d", n, cs.Seed, round))
+	}
+	r.NonTrivial = true
+	return r, ""
+}
+
+// execC17Churn: an encrypted cache with every option on (update_mtime included) under
+// concurrent Gets, Sets and Deletes of one key, while a scanner keeps reading every file of
+// the directory: whatever fails in between (a file that vanished before its mtime could be
+// updated, ...), no file ever holds a plaintext fragment.
+func execC17Churn(cs c17Case, r *oracle.Result) (*oracle.Result, string) {
+	c17Dir++
+	dir := filepath.Join(world.ScratchRoot(), fmt.Sprintf("c17c-%d", c17Dir))
+	_ = os.MkdirAll(dir, 0o755)
+	defer os.RemoveAll(dir)
+	key := aesKey(32, cs.Seed)
+	conn, err := store.Open("fscache://" + dir + "?appname=app&encrypt=aesgcm&update_mtime=on&encrypt_key=" + queryEscape(key))
+	if err != nil {
+		return r, err.Error()
+	}
+	k := "http://a.test/c17/churn#0"
+	if cs.URLLen > len(k) {
+		k = "http://a.test/c17/churn" + strings.Repeat("p", cs.URLLen-len(k)) + "#0"
+	}
+	value := world.ExpandValue(cs.ValLen, cs.Seed)
+	var stop atomic.Bool
+	var leak atomic.Value
+	var workers, scanner sync.WaitGroup
+	scan := func() {
+		for _, f := range filesUnder(dir) {
+			if b, err := os.ReadFile(f); err == nil && len(b) > 0 && plaintextWindow(b, value) >= 0 {
+				leak.Store(fmt.Sprintf("file %s (%d bytes) holds a plaintext fragment of the %d-byte value", filepath.Base(f), len(b), len(value)))
+			}
+		}
+	}
+	scanner.Add(1)
+	go func() {
+		defer scanner.Done()
+		for !stop.Load() {
+			scan()
+		}
+	}()
+	rounds := 400
+	for w := 0; w < 3; w++ {
+		workers.Add(1)
+		go func(w int) {
+			defer workers.Done()
+			for i := 0; i < rounds; i++ {
+				switch (i + w) % 3 {
+				case 0:
+					_ = conn.Set(k, value)
+				case 1:
+					_, _ = conn.Get(k)
+				case 2:
+					if w == 0 {
+						_ = conn.Delete(k)
+					} else {
+						_, _ = conn.Get(k)
+					}
+				}
+			}
+		}(w)
+	}
+	workers.Wait()
+	stop.Store(true)
+	scanner.Wait()
+	scan()
+	r.Evals += 3 * rounds
+	r.NTKeys = append(r.NTKeys, fmt.Sprintf("churn/%d/%d/%d", cs.ValLen, cs.URLLen, cs.Seed))
+	r.NonTrivial = true
+	if l := leak.Load(); l != nil {
+		r.Fail("C17", "plaintext-on-disk:churn", -1, "encrypted cache with update_mtime under concurrent Get/Set/Delete: %s", l)
+	}
+	return r, ""
+}
+
+func TestC17OpenConc(t *testing.T) {
+	c := checkC17
+	c.Gen = func(rt *rapid.T) *world.Scenario {
+		return mkC17(c17Case{Kind: "openconc", KeyLen: rapid.IntRange(2, 16).Draw(rt, "opens"), Seed: uint64(rapid.IntRange(1, 1<<30).Draw(rt, "seed"))})
+	}
+	RunCheck(t, c)
+}
+
+func TestC17Churn(t *testing.T) {
+	c := checkC17
+	c.Gen = func(rt *rapid.T) *world.Scenario {
+		return mkC17(c17Case{Kind: "churn", ValLen: gen.Pick(rt, "vlen", 16, 300, 5000, 70000), URLLen: gen.Pick(rt, "urllen", 0, 0, 250),
+			Seed: uint64(rapid.IntRange(1, 1<<30).Draw(rt, "seed"))})
 	}
 	RunCheck(t, c)
 }
